@@ -1,0 +1,62 @@
+//! Verification hooks (cargo feature `verif`): doc-hidden pass-through access to the private
+//! write-cache type and the `transactional` helper. No behaviour is added or changed.
+
+use crate::error::AnyResult;
+use crate::transactions::{transactional, StorageTransaction};
+use cosmwasm_std::{Order, Record, Storage};
+
+/// Pass-through wrapper around the private write-cache (`StorageTransaction`).
+pub struct VerifTransaction<'a>(StorageTransaction<'a>);
+
+impl<'a> VerifTransaction<'a> {
+    /// `StorageTransaction::new`
+    pub fn new(storage: &'a dyn Storage) -> Self {
+        VerifTransaction(StorageTransaction::new(storage))
+    }
+
+    /// `StorageTransaction::prepare`, returning the replay log as an opaque value.
+    pub fn prepare(self) -> VerifRepLog {
+        VerifRepLog(self.0.prepare())
+    }
+}
+
+/// Pass-through wrapper around the private replay log (`RepLog`).
+pub struct VerifRepLog(crate::transactions::RepLog);
+
+impl VerifRepLog {
+    /// `RepLog::commit`
+    pub fn commit(self, storage: &mut dyn Storage) {
+        self.0.commit(storage)
+    }
+}
+
+impl Storage for VerifTransaction<'_> {
+    fn get(&self, key: &[u8]) -> Option<Vec<u8>> {
+        self.0.get(key)
+    }
+
+    fn range<'b>(
+        &'b self,
+        start: Option<&[u8]>,
+        end: Option<&[u8]>,
+        order: Order,
+    ) -> Box<dyn Iterator<Item = Record> + 'b> {
+        self.0.range(start, end, order)
+    }
+
+    fn set(&mut self, key: &[u8], value: &[u8]) {
+        self.0.set(key, value)
+    }
+
+    fn remove(&mut self, key: &[u8]) {
+        self.0.remove(key)
+    }
+}
+
+/// `transactions::transactional`
+pub fn verif_transactional<F, T>(base: &mut dyn Storage, action: F) -> AnyResult<T>
+where
+    F: FnOnce(&mut dyn Storage, &dyn Storage) -> AnyResult<T>,
+{
+    transactional(base, action)
+}
